@@ -62,7 +62,16 @@ class CallMixin:
             if attr == "__name__":
                 return Val.VStr(ClassName(rint - TYPEBASE))
             raise Unsupported("attribute %s of a symbolic class object" % attr)
-        cid = self.class_of(obj, "getattr-class")
+        cands = self.class_candidates(obj)
+        if cands is not None and len(cands) > 1 and all(k in self.table.info for k in cands):
+            # several agent classes possible: no case split if the attribute resolves identically in all
+            res = [self._resolve_kind(self.table.info[k], attr, name) for k in cands]
+            if all(r == res[0] for r in res) and res[0] is not None:
+                cid = cands[0]
+            else:
+                cid = self.class_of(obj, "getattr-class")
+        else:
+            cid = self.class_of(obj, "getattr-class")
         if self.is_host_class(cid):
             if attr == "__class__":
                 return VRef(z3.simplify(z3.IntVal(TYPEBASE) + z3.Select(self.st.typeof, Val.r(obj))))
@@ -125,6 +134,18 @@ class CallMixin:
                 continue
             return self.st.register(BoundMethod(BuiltinFn("%s.%s" % (bn, attr)), obj))
         return self._attr_error(node, default)
+
+    def _resolve_kind(self, ci, attr, name):
+        if attr in ("__class__", "__dict__"):
+            return None
+        mem = self.index.lookup_member(ci, attr)
+        if mem is not None and mem[0] == "property":
+            return ("property", id(mem[1].get("get")))
+        if name in self.index.instance_fields(ci):
+            return ("field", name)
+        if mem is not None and mem[0] in ("method",):
+            return ("method", id(mem[1]))
+        return None
 
     def _extern_fields(self, ci):
         return set()
@@ -230,17 +251,8 @@ class CallMixin:
         return any(x.split(".")[-1] == "Enum" for x in self.index.extern_bases(ci))
 
     def enum_member(self, ci, attr):
-        """Enum members are singletons: one registered object per (class, member)."""
-        key = ("enum", ci.cid, attr)
-        cache = self.st.ghost.setdefault("_regcache", {})
-        if key in cache:
-            return cache[key]
-        rid = self.st.alloc(ci.cid)
-        self.st.set_field(z3.IntVal(rid), "name", VStr(attr))
-        self.st.writes.pop()
-        v = VRef(rid)
-        cache[key] = v
-        return v
+        """Enum members are singletons with fixed refs (see ClassTable.enum_refs)."""
+        return VRef(self.table.enum_refs[(ci.cid, attr)])
 
     # ------------------------------------------------------------------ calls
     def e_Call(self, e):
@@ -384,6 +396,11 @@ class CallMixin:
 
     def call_function(self, fi, closure, args, kwargs, node, anchor=None):
         anchor = anchor or (self.anchor(node) if node is not None else "call")
+        if fi.module.name == "deep.logging" and fi.name != "init":
+            # the agent's logging facade: trusted like stdlib logging (no effect, never raises)
+            self.used_trusted.add("deep.logging." + fi.name)
+            self.st.log.append(LogEntry("deep.logging." + fi.name, list(args), kwargs, site=anchor))
+            return VNone
         c = self.contracts.get(fi.key)
         bound = self.bind_params(fi, args, kwargs, node, anchor)
         if c is not None and not (self.top is not None and c is self.top and not self.frames_has_top()):
